@@ -22,7 +22,7 @@ func runApalache(scratch string) string {
 	if err := os.MkdirAll(scratch, 0o755); err != nil {
 		return "skipped: " + err.Error()
 	}
-	for _, f := range []string{"Apq.tla", "ApqInd.tla"} {
+	for _, f := range []string{"LruOps.tla", "Apq.tla", "ApqInd.tla"} {
 		b, err := os.ReadFile(filepath.Join(vlib.SpecDir(), f))
 		if err != nil {
 			return "skipped: " + err.Error()
